@@ -44,6 +44,8 @@ def workload(tier, seed, scale=1.0):
         vals.add((0x80 << (64 * n + 8 * rnd.randrange(8) - 8 if n else 0)) | rnd.getrandbits(64) | 1)
         vals.add((0x80 << (64 * n - 8)) | 1)
         vals.add((0x80 << (64 * n - 8)))
+    from ..core import special_values
+    vals |= set(special_values())
     for v in sorted(vals):
         if v >= 0:
             cmds.append(cmd_bytes(v, 'U', cell=('bytes', 'U', v.bit_length() % 64, ndig(v))))
